@@ -11,6 +11,7 @@ Callee classes (DESIGN §2):
   OP      pratt Operator::do_parse_*: Err ⇒ input restored to the checkpoint argument.
   PRIM    InputRef primitives.
 """
+import mirq
 import os
 from mirq import callee_path as mirq_callee_path
 from interp import (contradicts, add_fact, TOP, UNIT, MOVED, AnalysisError, Inp, has_token, strip_token, taint_of, term_of,
@@ -1133,6 +1134,8 @@ class Models:
                 self.token_lost(fr, v, "moved into %s" % f["name"], f["name"], line)
         if f["name"] in ("fold", "rfold", "try_fold", "try_rfold", "rev"):
             st.ev("order", f["name"])
+        if f["name"] in ("pop", "pop_back") and ("Vec" in (f.get("self_ty") or "") or "Vec" in path):
+            st.ev("order", "rfold")        # `while let Some(x) = v.pop()` consumes the collected items back to front, like rfold
         if f["name"] in ("push", "push_back", "insert", "extend", "push_front"):
             for v in vals[1:]:
                 for tag in self.cursor_tags(fr, v):
@@ -1147,6 +1150,21 @@ class Models:
             cb = self.local_body_of(f)
             if cb is not None and fr.depth < 4 and getattr(self.I, "inline_self_root", None) is not None:
                 return self.I.run_body(cb, [], fr.st, fr.depth + 1)
+        # a small private pure helper of the crate (`fn postfix_power(bp) -> u32 { Left(bp).right_power() }`): interpret it in place so
+        # that guards speak about what it computes, not about its name.  The binding-power functions themselves stay opaque terms
+        # (their arithmetic is AFFINE's business and the contracts name them).
+        if f.get("krate") == "chumsky" and f["name"] not in ("left_power", "right_power") and fr.depth < 4 \
+                and not any(isinstance(v, tuple) and v and v[0] in ("inp", "errors", "slotref", "secref") for v in list(vals) + list(dv)):
+            cb = self.local_body_of(f)
+            if cb is not None and not cb.get("public") and not cb.get("impl_trait") and not cb.get("in_trait") and cb is not fr.body \
+                    and len(cb["blocks"]) <= 16 and not mirq.loops(cb) and cb["kind"] != "Closure" \
+                    and cb is not getattr(self.I, "cur_root", None):
+                try:
+                    res_ = self.I.run_body(cb, list(vals), fr.st, fr.depth + 1)
+                    if res_:
+                        return res_
+                except AnalysisError:
+                    pass
         self.I.unknown_callees[path] = self.I.unknown_callees.get(path, 0) + 1
         if dest_ty == "()":
             return [(st, UNIT)]
